@@ -77,3 +77,8 @@ impl Descrambler {
         self.lfsr.next(bit)
     }
 }
+
+#[cfg(rustradio_verif)]
+pub mod verif_access {
+    include!(concat!(env!("RUSTRADIO_VERIF_DIR"), "/access/descrambler.rs"));
+}
